@@ -132,7 +132,34 @@ def assignManySmall (s : St F) (n bitLength : Nat) : List Cell × St F :=
     let len := min nr (n - j * nr)
     (acc.1 ++ (List.range len).map (fun i => advc r 0 (i + 1)), s.queryTag bitLength)) ([], s)
 
-/-! ## native_gadget.rs -/
+/-! ## native_gadget.rs
+
+### The bound cache (`constrained_cells`, strict upper bounds)
+
+Every `update_bound` call site of circuits/src/field/native/native_gadget.rs (line numbers of the
+pinned tree, for orientation) and its mirror here. The final content of the cache is compared with
+`St.bounds` on every trace request (hook `NativeGadget::verif_constrained_cells`, section `B[…]`
+of the trace line), and the program generator runs every reader right after every writer.
+
+| native_gadget.rs                                                   | bound        | mirror                         |
+|--------------------------------------------------------------------|--------------|--------------------------------|
+| `update_bound` (l. 98): `min(old, new)` per cell                    |              | `St.updateBound`               |
+| `assert_lower_than_fixed` (l. 289), after the early return          | `bound`      | `assertLowerThanFixed`         |
+| `convert` native → byte (l. 799), after the early return            | 256          | `gConvertToByte`               |
+| `convert` byte → native (l. 828)                                    | 256          | `convertByteToNative` (`y2n`)  |
+| `assert_equal` on natives (l. 1177, 1182): both directions          | other's bound| `gAssertEqual` (`propBound`)   |
+| `convert` native → bit (l. 1359), after the early return            | 2            | `gConvertToBit`                |
+| `convert` bit → native (l. 1383)                                    | 2            | `convertBitToNative` (`b2n`)   |
+
+Indirect writers (through the sites above): `assign_lower_than_fixed` with a bound that is not a
+power of two, `bounded_of_element`, `bnot`, `div_rem` (`assert_lower_than_fixed`);
+`lower_than` / `lower_than_fixed` (bit → native of the result bit); `assigned_from_le_bits` /
+`assigned_from_le_bytes` (bit / byte → native of every input); the byte-typed assertions and
+equality tests (byte → native of every operand); `sgn0`, `div_rem`, native → byte (`assert_equal`).
+
+Readers (early returns): `assert_lower_than_fixed` (l. 284: `current ≤ bound` ⇒ no constraint),
+`lower_than_fixed` (l. 369: `current ≤ y` ⇒ constant `true`), native → byte (l. 794: `current ≤
+256`), native → bit (l. 1354: `current ≤ 2`), `assert_equal` (propagation). -/
 
 def St.getBound (s : St F) (c : Cell) : Option Nat :=
   (s.bounds.find? (fun p => p.1 = c)).map (·.2)
@@ -228,6 +255,16 @@ def greaterThanFixed (s : St F) (x : Cell) (bx : Nat) (c p : Nat) : Cell × St F
   let (o, s) := leqFixed s x bx c p
   not s o
 
+/-- native_gadget.rs: `ConversionInstructions<AssignedBit, AssignedNative>::convert` — the cell
+itself, recorded as `< 2` (sound because an `AssignedBit` is constrained to be 0 or 1). -/
+def convertBitToNative (s : St F) (b : Cell) : St F := s.updateBound b 2
+
+/-- native_gadget.rs: `ConversionInstructions<AssignedByte, AssignedNative>::convert` — the cell
+itself, recorded as `< 256` (sound because an `AssignedByte` went through an 8-bit range check).
+A model that recorded 255 here (`u8::MAX`, reading the cache as inclusive) would make the step
+`b2n/y2n` of `bounds_sound` (Props/C04.lean) unprovable: the type invariant only gives `< 256`. -/
+def convertByteToNative (s : St F) (y : Cell) : St F := s.updateBound y 256
+
 /-- native_gadget.rs: `ConversionInstructions<AssignedNative, AssignedBit>::convert`. -/
 def gConvertToBit (s : St F) (x : Cell) : Cell × St F :=
   if s.boundLe x 2 then (x, s)
@@ -295,6 +332,52 @@ def assignedFromLeBytes (s : St F) (bytes : List Cell) : Cell × St F :=
   let s := bytes.foldl (fun s b => s.updateBound b 256) s
   let terms : List (F × Cell) := bytes.zipIdx.map (fun (b, i) => (((256 ^ i : Nat) : F), b))
   linearCombination s terms 0
+
+/-! ## Byte-typed assertions and equality tests (native_gadget.rs: `AssertionInstructions` /
+`EqualityInstructions` / `ControlFlowInstructions` for `AssignedByte`): every operand is converted
+byte → native first (a bound-cache writer), then the native instruction is used. -/
+
+def byteAssertEqual (s : St F) (x y : Cell) : St F :=
+  gAssertEqual (convertByteToNative (convertByteToNative s x) y) x y
+
+def byteAssertNotEqual (s : St F) (x y : Cell) : St F :=
+  assertNotEqual (convertByteToNative (convertByteToNative s x) y) x y
+
+def byteAssertEqualToFixed (s : St F) (x : Cell) (c : F) : St F :=
+  assertEqualToFixed (convertByteToNative s x) x c
+
+def byteAssertNotEqualToFixed (s : St F) (x : Cell) (c : F) : St F :=
+  assertNotEqualToFixed (convertByteToNative s x) x c
+
+def byteIsEqual (s : St F) (x y : Cell) : Cell × St F :=
+  isEqual (convertByteToNative (convertByteToNative s x) y) x y
+
+def byteIsNotEqual (s : St F) (x y : Cell) : Cell × St F :=
+  isNotEqual (convertByteToNative (convertByteToNative s x) y) x y
+
+def byteIsEqualToFixed (s : St F) (x : Cell) (c : F) : Cell × St F :=
+  isEqualToFixed (convertByteToNative s x) x c
+
+def byteIsNotEqualToFixed (s : St F) (x : Cell) (c : F) : Cell × St F :=
+  isNotEqualToFixed (convertByteToNative s x) x c
+
+/-! ## Bitwise word instructions (instructions/bitwise.rs defaults) -/
+
+/-- bitwise.rs: `bnot` — `x < 2^n` (through the bound cache), then `2^n − 1 − x`. -/
+def bnot (s : St F) (x : Cell) (n : Nat) : Cell × St F :=
+  let s := assertLowerThanFixed s x (2 ^ n)
+  linearCombination s [(-1, x)] (((2 ^ n : Nat) : F) - 1)
+
+/-- bitwise.rs: `band` / `bor` / `bxor` — both operands to `n` bits (canonical flag set), the
+binary connective `f` on every pair of bits, recomposition. -/
+def bitwise (f : St F → List Cell → Cell × St F) (s : St F) (x y : Cell) (n numBits halfP : Nat) :
+    Cell × St F :=
+  let (xb, s) := assignedToLeBits s x (some n) true numBits halfP
+  let (yb, s) := assignedToLeBits s y (some n) true numBits halfP
+  let (rs, s) := (xb.zip yb).foldl (fun (acc : List Cell × St F) p =>
+    let (r, s) := f acc.2 [p.1, p.2]
+    (acc.1 ++ [r], s)) ([], s)
+  assignedFromLeBits s rs
 
 /-- division.rs: `div_rem` (default); `pm1 = p - 1`. -/
 def divRem (s : St F) (x : Cell) (d : Nat) (bound : Option Nat) (pm1 : Nat) : (Cell × Cell) × St F :=
